@@ -68,6 +68,18 @@ class Oracle:
         return r
 
     def pre(self, ctx):
+        # property-served attributes: fill the cache first (a read); a cache entry that appears during the judged call is
+        # then not mistaken for a change of the receiver (C01 treats such an entry as neutral, DESIGN 3.5)
+        for a in ctx.rec["attrs"]:
+            if a.get("prop") == "cached":
+                for o in ctx.world.objs:
+                    G.CB.suspended = True
+                    try:
+                        getattr(o, G.attr_name(a))
+                    except Exception:
+                        pass
+                    finally:
+                        G.CB.suspended = False
         r = self.roots(ctx)
         ctx.store["roots"] = r
         ctx.store["canon"] = snap.canon(r)
